@@ -96,7 +96,11 @@ def register(R):
         params=dict(task=ObjT(TASK), tag=Const(None), block=Bool),
         param_alternatives={'tag': [('untagged', Const(None)), ('upload_tag', Const(UPT)), ('download_tag', Const(DLT))]},
         checks=be_submit_checks,
-        raises={f'{UT}:NoResourcesAvailable': lambda c: {'nothing_submitted': B(len(exts(c.trace, 'thread_pool.submit')) == 0)},
+        # a refused non-blocking submission took no permit: it submits nothing and gives nothing back ("after any set of
+        # transfers has finished every semaphore of the manager is back at full capacity" -- not above it)
+        raises={f'{UT}:NoResourcesAvailable': lambda c: {
+            'nothing_submitted': B(len(exts(c.trace, 'thread_pool.submit')) == 0),
+            'nothing_released_for_a_permit_that_was_never_taken': B(not [e for e in c.trace if e.kind == 'call' and e.name.endswith('.release')])},
                 'RuntimeError': lambda c: {}},
         raise_when={'Exception': lambda c: None},
         returns=ExtT('future'),
